@@ -313,7 +313,7 @@ PROPS = {
         lean_modules=["Gowarc.Props.C11"],
         race_binary=True,
         n_quick=24, n_thorough=300,
-        required_theorems=["C11_table", "C11_closed", "C11_fields_locked", "C11_reads_locked", "C11_pkg_objects", "C11_reader_keeps_nothing"],
+        required_theorems=["C11_table", "C11_closed", "C11_fields_locked", "C11_reads_locked", "C11_pkg_objects", "C11_reader_keeps_nothing", "C11_opts_immutable"],
         model_assumptions=["the Go memory model: accesses ordered by a mutex, by channel operations of the protocol (C10) or by package initialisation do not race",
                            "the table is extracted syntactically (go/ast): assignments through the receiver, calls by method name, package variables by name; accesses reached only through interfaces, closures or third-party code are not in the table and are covered by the race-detector workloads only",
                            "the detector only reports races on the schedules that actually ran: the workloads repeat each supported shape with 2-8 goroutines; supported shapes include the pipeline in which ONE goroutine owns a file reader and hands every record it gets to a worker goroutine that owns it from then on (workload handoff, with and without spilled blocks; a worker that does not get its complete block is a violation too)"],
